@@ -1,6 +1,7 @@
 package zsim
 
 import (
+	"encoding/binary"
 	"bytes"
 	"fmt"
 	"io"
@@ -304,6 +305,32 @@ func shiftBelowResolution(tables []TableDef, sql, diff string) bool {
 // flushWithTransientReadError forces a flush of the node's tables during
 // which the first attempt finds every current filestore file cut in half (a
 // short read); the file is whole again for the retry.
+// cutInsideRow moves a cut position of a filestore's uncompressed content so
+// that it lies strictly inside a row (a file that ends exactly between two rows
+// is a well-formed shorter file, not a read error). Layout: uint32 header
+// length, header, then rows that start with their own uint64 length.
+func cutInsideRow(all []byte, want int) int {
+	if len(all) < 4 {
+		return want
+	}
+	pos := 4 + int(binary.BigEndian.Uint32(all))
+	for pos+8 <= len(all) {
+		l := int(binary.BigEndian.Uint64(all[pos:]))
+		if l < 8 || pos+l > len(all) {
+			break
+		}
+		if want <= pos+l {
+			// the row [pos, pos+l) holds (or ends at) the wanted position
+			if want <= pos || want >= pos+l {
+				return pos + l/2
+			}
+			return want
+		}
+		pos += l
+	}
+	return want
+}
+
 func flushWithTransientReadError(e *Env, n *Node) {
 	saved := map[string][]byte{}
 	attempts := map[string]int{}
@@ -323,11 +350,12 @@ func flushWithTransientReadError(e *Env, n *Node) {
 				if all, rerr := io.ReadAll(snappy.NewReader(bytes.NewReader(b))); rerr == nil && len(all) > 96 {
 					var buf bytes.Buffer
 					w := snappy.NewBufferedWriter(&buf)
-					w.Write(all[:len(all)*2/3])
+					w.Write(all[:cutInsideRow(all, len(all)*2/3)])
 					w.Close()
 					saved[tbl] = b
 					os.WriteFile(file, buf.Bytes(), 0644)
 					e.Count("fault.flush.short-read")
+					e.Logf("short read injected into %s of %s: %d of %d content bytes", tbl, n.Name, len(all)*2/3, len(all))
 				}
 			}
 		case 2:
@@ -339,6 +367,7 @@ func flushWithTransientReadError(e *Env, n *Node) {
 				os.WriteFile(file, b, 0644)
 				delete(saved, tbl)
 				e.Count("probe.flush-retried")
+				e.Logf("flush of %s retried on %s", tbl, n.Name)
 			}
 		}
 	}
